@@ -23,9 +23,12 @@ class Spectrum:
     Gamma-point acoustic modes (q index 0, modes 0..2) are excluded by position.
     """
 
-    def __init__(self, v0, w0, g0, a, b, weights, natoms):
+    def __init__(self, v0, w0, g0, a, b, weights, natoms, higher=()):
+        """``higher`` = further derivatives d^k gamma/dx^k (k = 2, 3, ...) for spectra whose ln w is a
+        polynomial of degree > 3 in x (used for least-squares fits of generic data)."""
         self.v0 = float(v0)
         self.w0, self.g0, self.a, self.b = (numpy.asarray(z, dtype=float) for z in (w0, g0, a, b))
+        self.higher = [numpy.asarray(z, dtype=float) for z in higher]
         self.weights = numpy.asarray(weights, dtype=float)
         self.natoms = int(natoms)
         self.nq, self.np = self.w0.shape
@@ -33,18 +36,36 @@ class Spectrum:
         self.mask = numpy.ones((self.nq, self.np), dtype=bool)
         self.mask[0, :3] = False
 
+    def _coefs(self):
+        # gamma(x) = sum_k c_k x^k / k!  with c_0 = g0, c_1 = a, c_2 = b, c_3.. = higher
+        return [self.g0, self.a, self.b] + self.higher
+
     def omega(self, v, dtype=float):
         x = numpy.log(numpy.asarray(v, dtype=dtype) / dtype(self.v0))[..., None, None]
-        return self.w0.astype(dtype) * numpy.exp(-self.g0.astype(dtype) * x - self.a.astype(dtype) * x ** 2 / 2
-                                                 - self.b.astype(dtype) * x ** 3 / 6)
+        expo = 0
+        fact = 1
+        for k, c in enumerate(self._coefs()):
+            fact *= (k + 1)
+            expo = expo - c.astype(dtype) * x ** (k + 1) / fact        # -int_0^x gamma
+        return self.w0.astype(dtype) * numpy.exp(expo)
 
     def gamma(self, v):
         x = numpy.log(numpy.asarray(v, dtype=float) / self.v0)[..., None, None]
-        return self.g0 + self.a * x + self.b * x ** 2 / 2
+        out, fact = 0, 1
+        for k, c in enumerate(self._coefs()):
+            if k:
+                fact *= k
+            out = out + c * x ** k / fact
+        return out
 
     def vdgdv(self, v):
         x = numpy.log(numpy.asarray(v, dtype=float) / self.v0)[..., None, None]
-        return self.a + self.b * x + 0 * x
+        out, fact = 0 * x, 1
+        for k, c in enumerate(self._coefs()[1:]):
+            if k:
+                fact *= k
+            out = out + c * x ** k / fact
+        return out
 
     # ---- free energy -------------------------------------------------------------------
     def f_zp(self, v):
@@ -187,3 +208,27 @@ def closed_form_from_arrays(freq, gamma, vdgdv, weights, t, v, ei, ej, longitudi
         zp = azp / (15 * ei * ej)
         th = ath / (15 * ei * ej)[None]
     return {"zp": zp, "th": th, "dsdx": dsdx, "p_zp": pzp, "p_th": pth}
+
+
+def spectrum_from_lsq(volumes, freqs, order, weights, natoms, v0=None):
+    """Oracle's own least-squares polynomial (degree ``order``) of ln w in x = ln(V/v0), per mode:
+    the interpolant a least-squares method of that order must reproduce on arbitrary data."""
+    from math import factorial
+    volumes = numpy.asarray(volumes, float)
+    freqs = numpy.asarray(freqs, float)
+    nv, nq, np_ = freqs.shape
+    v0 = float(volumes.max() if v0 is None else v0)
+    x = numpy.log(volumes / v0)
+    A = numpy.vander(x, order + 1, increasing=True)
+    f = freqs.copy()
+    f[:, 0, :3] = 1.0
+    Y = numpy.log(f).reshape(nv, nq * np_)
+    coef, *_ = numpy.linalg.lstsq(A, Y, rcond=None)           # ln w = sum_k coef_k x^k
+    coef = coef.reshape(order + 1, nq, np_)
+    full = numpy.zeros((max(order + 1, 4), nq, np_))
+    full[:order + 1] = coef
+    # ln w = ln w0 - sum_{k>=0} c_k x^(k+1)/(k+1)!   =>  c_k = -coef_{k+1} (k+1)!
+    cs = [-full[k + 1] * factorial(k + 1) for k in range(full.shape[0] - 1)]
+    while len(cs) < 3:
+        cs.append(numpy.zeros((nq, np_)))
+    return Spectrum(v0, numpy.exp(full[0]), cs[0], cs[1], cs[2], weights, natoms, higher=cs[3:])
